@@ -44,12 +44,14 @@ struct Options {
   double timeLimit = 0;            // seconds
   uint64_t maxInstr = 0;
   unsigned maxDepth = 200000;
-  unsigned maxAlts = 256;
+  unsigned maxAlts = 2048;
   unsigned maxEnum = 64;
   bool verbose = false;
   bool checkNsw = true;
   bool noMerge = false;
   bool traceCalls = false;
+  std::map<size_t, uint64_t> fixed; size_t fixedSeen = 0; std::map<uint64_t, uint64_t> fixedVals;
+  std::string shadowFile, traceOut, shadowInputs;
   double slow = 1e9; unsigned solverTimeoutMs = 20000;
 } opt;
 
@@ -173,7 +175,9 @@ static const PtrVal* intToPtr(State& st, Node* n) {
   std::vector<std::pair<Node*, uint64_t>> leaves;
   if (n->cleaf) collectLeaves(n, tm.T, leaves); else leaves = enumerateValues(st, n);
   std::vector<PtrAlt> v;
-  for (auto& l : leaves) { uint32_t o; uint64_t off; resolveAddr(l.second, o, off); addAlt(v, l.first, o, tm.mkConst(64, off)); }
+  for (auto& l : leaves) { uint32_t o; uint64_t off; resolveAddr(l.second, o, off);
+    if (opt.verbose && o == 0 && l.second != 0) { auto it = addrMap.upper_bound(l.second); if (it != addrMap.begin()) { --it; std::cerr << "note: inttoptr of " << l.second << " resolves to no object; nearest below: obj " << it->second << " base " << it->first << " size " << objSize[it->second] << " at " << locOf(curInst) << "\n"; } }
+    addAlt(v, l.first, o, tm.mkConst(64, off)); }
   return mkPtrV(v);
 }
 static Node* ptrCmpEq(const PtrVal* a, const PtrVal* b) {
@@ -213,8 +217,19 @@ static vs::Value mergeValue(Node* c, const vs::Value& a, const vs::Value& b) {
     if (a.a->el.size() != b.a->el.size()) inconclusive("merge of aggregates of different size");
     AggVal* r = new AggVal(); for (size_t i = 0; i < a.a->el.size(); ++i) r->el.push_back(mergeValue(c, a.a->el[i], b.a->el[i])); return vs::Value::A(r);
   }
-  if ((a.k == vs::Value::PTR && b.k == vs::Value::INT) || (a.k == vs::Value::INT && b.k == vs::Value::PTR))
+  if ((a.k == vs::Value::PTR && b.k == vs::Value::INT) || (a.k == vs::Value::INT && b.k == vs::Value::PTR)) {
+    // keep pointer provenance whenever the integer side is a constant-leaf diagram (typically 0 from zero-filling)
+    const vs::Value& iv = a.k == vs::Value::INT ? a : b;
+    if (iv.n->w == 64 && iv.n->cleaf) {
+      std::vector<std::pair<Node*, uint64_t>> leaves; collectLeaves(iv.n, tm.T, leaves); std::vector<PtrAlt> alts;
+      for (auto& l : leaves) { uint32_t o; uint64_t off; resolveAddr(l.second, o, off); addAlt(alts, l.first, o, tm.mkConst(64, off)); }
+      const PtrVal* ip = mkPtrV(alts);
+      return vs::Value::P(a.k == vs::Value::INT ? mergePtr(c, ip, b.p) : mergePtr(c, a.p, ip));
+    }
+    if (iv.n->w == 64 && iv.n->op == VAR && iv.n->taint)   // uninitialised 8 bytes: an indeterminate pointer
+      return vs::Value::P(a.k == vs::Value::INT ? mergePtr(c, mkPtr1(tm.T, 0, iv.n), b.p) : mergePtr(c, a.p, mkPtr1(tm.T, 0, iv.n)));
     return vs::Value::I(tm.mkIte(c, asInt(a, 64), asInt(b, 64)));
+  }
   inconclusive("merge of incompatible values");
 }
 
@@ -226,6 +241,7 @@ static bool feasible(State& st, Node* c, bool wantModel) {
   if (q->pure && !wantModel) { ++stats.feasPure; return true; }
   int r = slv->check({q}, wantModel);
   if (r < 0) inconclusive("solver returned unknown (timeout?)");
+  if (r == 1 && wantModel && !tm.eval(q, slv->lastModel->v, slv->lastModel->id)) inconclusive("internal: solver model does not satisfy the query under the engine's own evaluation");
   return r == 1;
 }
 
@@ -291,6 +307,15 @@ static void checkUninitUse(State& st, Node* v, const char* what) {
   if (!v->taint) return;
   auto it = taintOk.find(v); if (it != taintOk.end()) return;
   ++stats.taintChecks;
+  if (opt.verbose) {   // debugging aid: a candidate input under which an uninitialised variable is selected
+    std::function<Node*(Node*, Node*)> find = [&](Node* n, Node* g) -> Node* {
+      if (!n->taint || Terms::isFalse(g)) return nullptr;
+      if (n->op == VAR) return g;
+      if (n->op == SEL) { if (Node* r = find(n->y, tm.mkAnd(g, n->x))) return r; return find(n->z, tm.mkAnd(g, tm.mkNot(n->x))); }
+      for (Node* c : {n->x, n->y, n->z}) if (c) if (Node* r = find(c, g)) return r;
+      return nullptr; };
+    if (Node* g = find(v, st.pc)) { if (slv->check({g}, true) == 1) { std::cerr << "note: candidate uninitialised use (" << what << ") at " << locOf(curInst) << " under inputs:"; for (auto& iv : inputVars) std::cerr << " " << (iv.second->c < slv->lastModel->v.size() ? slv->lastModel->v[iv.second->c] : 0); std::cerr << "  value " << tm.str(v, 4) << "\n"; } }
+  }
   std::unordered_map<Node*, Node*> memo;
   Node* v2 = substTaint(v, memo); Node* pc2 = substTaint(st.pc, memo);
   Node* differ = tm.mkNot(tm.mkEq(v, v2));
@@ -301,6 +326,7 @@ static void checkUninitUse(State& st, Node* v, const char* what) {
 }
 
 // ------------------------------------------------------------------------------------------------ memory
+static std::map<uint32_t, std::string> objWhere;
 static uint32_t newObject(State& st, uint64_t size, ObjKind kind, const char* name) {
   if (nextObj >= PMap::MAXID) inconclusive("object id space exhausted");
   uint32_t id = nextObj++;
@@ -309,11 +335,13 @@ static uint32_t newObject(State& st, uint64_t size, ObjKind kind, const char* na
   if (objBase.size() <= id) { objBase.resize(id + 1024, 0); objSize.resize(id + 1024, 0); }
   objBase[id] = o->base; objSize[id] = size; addrMap[o->base] = id;
   st.mem.set(id, o); ++stats.allocs;
+  if (opt.verbose && kind == OK_HEAP) { std::string w = locOf(curInst); for (size_t i = callStack.size(); i-- > 0 && i + 4 > callStack.size();) w += " < " + demangle(callStack[i]).substr(0, 60); objWhere[id] = w; }
   return id;
 }
 static Node* cellAsInt(const Cell& c) { return c.v.k == vs::Value::PTR ? ptrToInt(c.v.p) : c.v.n; }
 static unsigned uninitCounter = 0;
 static Node* freshUninit(unsigned w, const Obj& o, uint32_t off) {
+  if (opt.verbose) std::cerr << "note: uninit" << uninitCounter << " = read/merge of uninitialised bytes of " << (o.name ? o.name : "obj") << o.id << "+" << off << " size " << o.size << " allocated at " << objWhere[o.id] << " ; now at " << locOf(curInst) << "\n";
   return tm.mkVar(w, "uninit" + std::to_string(uninitCounter++) + "@" + (o.name ? o.name : "obj") + std::to_string(o.id) + "+" + std::to_string(off), true);
 }
 // remove everything overlapping [off, off+size), keeping the non-overlapping remainders of partially covered cells
@@ -373,7 +401,7 @@ static std::vector<Access> resolveAccess(State& st, const PtrVal* p, uint64_t si
   std::vector<Access> out;
   for (auto& a : p->alts) {
     if (Terms::isFalse(tm.mkAnd(st.pc, a.g))) continue;
-    if (a.obj == 0) { checkCond(st, tm.mkNot(a.g), "null-deref", std::string(what) + " through null/invalid pointer"); continue; }
+    if (a.obj == 0) { checkCond(st, tm.mkNot(a.g), a.off->taint ? "uninit-pointer" : "null-deref", std::string(what) + (a.off->taint ? " through a pointer read from uninitialised memory: " : " through null/invalid pointer: ") + tm.str(a.off, 3) + " guard " + tm.str(a.g, 4)); continue; }
     const Obj* o = st.mem.get(a.obj);
     if (!o) { checkCond(st, tm.mkNot(a.g), "dangling", std::string(what) + " of an object whose lifetime has ended (stack)"); continue; }
     if (!Terms::isFalse(o->freed)) checkCond(st, tm.mkNot(tm.mkAnd(a.g, o->freed)), "use-after-free", std::string(what) + " of freed heap object");
@@ -585,6 +613,14 @@ static void writeConst(State& st, Obj& o, uint64_t off, const Constant* C) {
 }
 
 // ------------------------------------------------------------------------------------------------ scalar ops
+static uint64_t g_liftKey = 0;
+static double bitsToDouble(uint64_t c, unsigned w) { if (w == 32) { float f; uint32_t b = (uint32_t)c; memcpy(&f, &b, 4); return f; } double d; memcpy(&d, &c, 8); return d; }
+static uint64_t doubleToBits(double d, unsigned w) { if (w == 32) { float f = (float)d; uint32_t b; memcpy(&b, &f, 4); return b; } uint64_t b; memcpy(&b, &d, 8); return b; }
+// apply a leaf-wise function to a constant-leaf diagram (floating point values are carried as bit patterns)
+static Node* liftLeaves(Node* a, unsigned outW, const std::function<uint64_t(uint64_t)>& f) {
+  if (!a->cleaf) inconclusive("symbolic floating point / unsupported symbolic operand");
+  return tm.ddApply1((0xE0ULL << 48) | (++g_liftKey), a, [&](Node* l) { return tm.mkConst(outW, f(l->c)); });
+}
 static double asDouble(Node* n) { if (!Terms::isC(n)) inconclusive("symbolic floating point"); if (n->w == 32) { float f; uint32_t b = n->c; memcpy(&f, &b, 4); return f; } double d; memcpy(&d, &n->c, 8); return d; }
 static vs::Value fromDouble(double d, Type* ty) { if (ty->isFloatTy()) { float f = (float)d; uint32_t b; memcpy(&b, &f, 4); return vs::Value::I(tm.mkConst(32, b)); } uint64_t b; memcpy(&b, &d, 8); return vs::Value::I(tm.mkConst(64, b)); }
 
@@ -599,17 +635,24 @@ static vs::Value doCast(State& st, unsigned opc, const vs::Value& v, Type* from,
     case Instruction::Trunc: return vs::Value::I(tm.mkTrunc(asInt(v, from->getIntegerBitWidth()), to->getIntegerBitWidth()));
     case Instruction::ZExt: return vs::Value::I(tm.mkZext(asInt(v, from->getIntegerBitWidth()), to->getIntegerBitWidth()));
     case Instruction::SExt: return vs::Value::I(tm.mkSext(asInt(v, from->getIntegerBitWidth()), to->getIntegerBitWidth()));
-    case Instruction::FPExt: case Instruction::FPTrunc: return fromDouble(asDouble(v.n), to);
-    case Instruction::UIToFP: { if (!Terms::isC(v.n)) inconclusive("symbolic uitofp"); return fromDouble((double)v.n->c, to); }
-    case Instruction::SIToFP: { if (!Terms::isC(v.n)) inconclusive("symbolic sitofp"); return fromDouble((double)sextw(v.n->c, v.n->w), to); }
-    case Instruction::FPToUI: { double d = asDouble(v.n); return vs::Value::I(tm.mkConst(to->getIntegerBitWidth(), (uint64_t)d)); }
-    case Instruction::FPToSI: { double d = asDouble(v.n); return vs::Value::I(tm.mkConst(to->getIntegerBitWidth(), (uint64_t)(int64_t)d)); }
+    case Instruction::FPExt: case Instruction::FPTrunc: { unsigned fw = from->isFloatTy() ? 32 : 64, tw = to->isFloatTy() ? 32 : 64; return vs::Value::I(liftLeaves(v.n, tw, [=](uint64_t c) { return doubleToBits(bitsToDouble(c, fw), tw); })); }
+    case Instruction::UIToFP: { unsigned tw = to->isFloatTy() ? 32 : 64; return vs::Value::I(liftLeaves(v.n, tw, [=](uint64_t c) { return doubleToBits((double)c, tw); })); }
+    case Instruction::SIToFP: { unsigned tw = to->isFloatTy() ? 32 : 64; unsigned fw = v.n->w; return vs::Value::I(liftLeaves(v.n, tw, [=](uint64_t c) { return doubleToBits((double)sextw(c, fw), tw); })); }
+    case Instruction::FPToUI: { unsigned fw = from->isFloatTy() ? 32 : 64; unsigned tw = to->getIntegerBitWidth(); return vs::Value::I(liftLeaves(v.n, tw, [=](uint64_t c) { return (uint64_t)bitsToDouble(c, fw); })); }
+    case Instruction::FPToSI: { unsigned fw = from->isFloatTy() ? 32 : 64; unsigned tw = to->getIntegerBitWidth(); return vs::Value::I(liftLeaves(v.n, tw, [=](uint64_t c) { return (uint64_t)(int64_t)bitsToDouble(c, fw); })); }
   }
   inconclusive("unsupported cast");
 }
 
 static vs::Value doBinop(State& st, unsigned opc, const vs::Value& a, const vs::Value& b, const Instruction* I) {
   Type* ty = I ? I->getType() : nullptr;
+  if (ty && ty->isFloatingPointTy() && !(Terms::isC(a.n) && Terms::isC(b.n))) {
+    unsigned w = ty->isFloatTy() ? 32 : 64;
+    auto f = [=](double x, double y) -> double { switch (opc) { case Instruction::FAdd: return x + y; case Instruction::FSub: return x - y; case Instruction::FMul: return x * y; case Instruction::FDiv: return x / y; default: return fmod(x, y); } };
+    if (Terms::isC(b.n)) { double y = bitsToDouble(b.n->c, w); return vs::Value::I(liftLeaves(a.n, w, [=](uint64_t c) { return doubleToBits(f(bitsToDouble(c, w), y), w); })); }
+    if (Terms::isC(a.n)) { double x = bitsToDouble(a.n->c, w); return vs::Value::I(liftLeaves(b.n, w, [=](uint64_t c) { return doubleToBits(f(x, bitsToDouble(c, w)), w); })); }
+    inconclusive("floating point operation on two symbolic operands");
+  }
   if (ty && ty->isFloatingPointTy()) {
     double x = asDouble(a.n), y = asDouble(b.n), r;
     switch (opc) { case Instruction::FAdd: r = x + y; break; case Instruction::FSub: r = x - y; break; case Instruction::FMul: r = x * y; break; case Instruction::FDiv: r = x / y; break; case Instruction::FRem: r = fmod(x, y); break; default: inconclusive("fp op"); }
